@@ -43,6 +43,8 @@ enum SessEv {
     New(usize),
     Reset,
     Ev(verif::TableEvent),
+    /// after a search: the table's own counter of filled slots and its fill indicator
+    Fill(usize, usize),
 }
 
 /// key ids are global to the file: (key, number of slots) -> id; `pool[id - 1]` = (slot, number of slots)
@@ -70,14 +72,32 @@ fn write_session(p: &mut Pool, sess: &[SessEv], max_slots: usize, totals: &mut [
     totals[2] += slots.iter().filter(|s| keys_of[*s].len() > 1).count() as u64;
     slots.truncate(max_slots);
     let tracked: HashSet<usize> = slots.into_iter().collect();
+    // slots that received an insert since the table was last emptied (ALL slots, not only the tracked ones)
+    let mut filled: HashSet<usize> = HashSet::new();
+    let mut filled_tracked: HashSet<usize> = HashSet::new();
     for e in sess {
         match e {
-            SessEv::New(n) => p.lines.push(json!({"op": "new", "slots": n}).to_string()),
-            SessEv::Reset => p.lines.push(json!({"op": "reset"}).to_string()),
+            SessEv::New(n) => {
+                filled.clear();
+                filled_tracked.clear();
+                p.lines.push(json!({"op": "new", "slots": n}).to_string());
+            }
+            SessEv::Reset => {
+                filled.clear();
+                filled_tracked.clear();
+                p.lines.push(json!({"op": "reset"}).to_string());
+            }
+            SessEv::Fill(occ, pm) => p.lines.push(
+                json!({"op": "fill", "occ": occ, "pm": pm, "filled": filled.len(), "untracked": filled.len() - filled_tracked.len()}).to_string(),
+            ),
             SessEv::Ev(t) => {
                 totals[0] += 1;
                 if t.op == 1 {
                     totals[4] += 1;
+                    filled.insert(t.slot);
+                    if tracked.contains(&t.slot) {
+                        filled_tracked.insert(t.slot);
+                    }
                 }
                 if t.op == 2 {
                     p.lines.push(json!({"op": "newsearch", "gen": t.generation}).to_string());
@@ -193,6 +213,7 @@ pub fn main(rest: &[String]) -> i32 {
             verif::record_table(false);
             counted_inserts += verif::take_table_inserts();
             sess.extend(verif::take_table().into_iter().map(SessEv::Ev));
+            sess.push(SessEv::Fill(ps.tt.occupied, ps.tt.occupancy()));
             let polls = verif::polls();
             verif::set_stop_at_poll(0);
             let events = verif::take_nodes();
